@@ -451,7 +451,9 @@ func TestVerifC18(t *testing.T) {
 	tally := map[string]int64{}
 	count := func(k string, n int64) { rec.Count(k, n); tally[k] += n }
 	for i, c := range cases {
-		if !rec.Mine(i) {
+		// cases are dealt to the shards by a scrambled index: the case list is a product of small
+		// dimensions, and index mod 16 would give some shards no case at all of some dimension values
+		if !rec.Mine(int((uint32(i) * 2654435761) >> 12)) {
 			continue
 		}
 		if rec.Expired() {
